@@ -1,7 +1,14 @@
 (* Rt/LexLinkTH2.v for the lexer-derived shape oracle hsh_lex cls: the lexical side condition becomes purely textual (+ the boolean clause on cls).
 
      hsh_cls2                     the class shape as oracle: chain_shape on chains, LexLinkTH.hsh_cls otherwise
-     text_roundtrip_coreth2_lex   text_roundtrip_coreth2 with hsh := hsh_lex cls and side condition lex_safeth2_doc cls hsh_cls2 d *)
+     text_roundtrip_coreth2_lex   text_roundtrip_coreth2 with hsh := hsh_lex cls and side condition lex_safeth2_doc cls hsh_cls2 d
+
+   Second part -- chains ending in a section target   raw = [ "s" ∧W1 .. ∧Wn →§T ]   (the shape of TokRoundTEx.h3, with a string example):
+     cls_flow_ok cls = negb (id_char cls 8594) && negb (u_word cls 8594) && negb (u_digit cls 8594)   (the last word is directly followed by →;
+                       no clause is needed for § = 167: it follows the operator, and T is followed by the ASCII bracket)
+     lex_chainT_line   the emitted line of such an assignment is read as INDENT? KEY ASSIGN chainT_shape COMMENT? NEWLINE, every depth
+     hsh_lex_chainT    hsh_lex cls (chainT_text s ws T) = chainT_shape s ws T
+   Document level for this class: NOT done. *)
 From OV Require Import Base.Strs Gen.LexerGen Syn.Escape Syn.Quote Syn.Ast Syn.Emitter Syn.Parser Lex.Lexer Lex.Progress
      Rt.Zones Rt.ZonesRt Rt.TokRound Rt.TokRoundEx Rt.TokRound2 Rt.TokRound2Ex Rt.TokRoundZ Rt.TokRoundT Rt.TokRoundTHolo Rt.TokRoundTEx
      Rt.LexLinkBase Rt.LexLinkSteps Rt.LexLink Rt.LexLink2Base Rt.LexLink2Steps Rt.LexLink2Text Rt.LexLink2
@@ -56,3 +63,152 @@ Proof.
   intros Hc Hs. exact (text_roundtrip_coreth2 cls (hsh_lex cls) numcanon holo_ok strict sp d Hc (safeth2_doc_cls_lex cls d Hs)).
 Qed.
 Print Assumptions text_roundtrip_coreth2_lex.
+
+(* ======== chains ending in a section target ================================================================================================================= *)
+Definition cls_flow_ok (cls : N -> N) : bool := negb (id_char cls 8594) && negb (u_word cls 8594) && negb (u_digit cls 8594).
+Definition chainT_text (s : str) (ws : list str) (T : str) : str := [c_lbr] ++ quote s ++ ands_text ws ++ 8594 :: 167 :: T ++ [c_rbr].
+Definition chainT_shape (s : str) (ws : list str) (T : str) : list sh :=
+  [(LIST_START, Some (TVText [91])); (STRING, Some (TVText s))] ++ ands_sh ws ++
+  [(FLOW, Some (TVText [8594])); (SECTION, Some (TVText [167])); (IDENTIFIER, Some (TVText T)); (LIST_END, Some (TVText [93]))].
+
+Section ChainT.
+Variable cls : N -> N.
+
+Lemma cls_flow_parts : cls_flow_ok cls = true -> zend cls 8594 /\ u_digit cls 8594 = false.
+Proof.
+  unfold cls_flow_ok. intros H. apply andb_true_iff in H as [H H3]. apply andb_true_iff in H as [H1 H2].
+  apply negb_true_iff in H1, H2, H3. split; [|exact H3]. split; [exact H1|]. split; [exact H2|split; discriminate].
+Qed.
+
+(* ∧W1..∧Wn before any terminator z that ends a word *)
+Lemma lex_ands_z z : cls_and_ok cls = true -> zend cls z -> u_digit cls z = false -> z <> c_dot -> forall ws st r, forallb key_ok ws = true ->
+  ls_in st = ands_text ws ++ z :: r -> ls_spans st = [] -> ls_pos st <> 0 ->
+  exists st', lextoB cls st (ands_sh ws) st' /\ ls_in st' = z :: r /\ ls_brk st' = ls_brk st /\ ls_pos st' <> 0 /\ ls_col st <= ls_col st'.
+Proof.
+  intros Hcls Zz Dz Nz. destruct (cls_and_parts cls Hcls) as (_ & _ & Hdig).
+  induction ws as [|w ws IH]; intros st r Hok Hin S0 P0.
+  - exists st. split; [apply lextoB_refl|]. split; [exact Hin|]. split; [reflexivity|]. split; [exact P0|lia].
+  - cbn [forallb] in Hok. apply andb_true_iff in Hok as [Hw Hws]. cbn [ands_text app] in Hin. rewrite <- app_assoc in Hin.
+    assert (Hhd : exists x u, ands_text ws ++ z :: r = x :: u /\ (x = 8743 \/ x = z)).
+    { destruct ws as [|w' ws']; cbn [ands_text app]; eexists _, _; (split; [reflexivity|]); [right|left]; reflexivity. }
+    destruct Hhd as (x & u & Ex & Hx). rewrite Ex in Hin.
+    assert (V : scan_version cls (8743 :: w ++ x :: u) = None).
+    { change (8743 :: w ++ ?y) with ((8743 :: w) ++ y). apply scan_version_no_dot.
+      - intros y [<-|Hy]; [discriminate|exact (key_no_dot w Hw y Hy)].
+      - destruct Hx; subst x; [discriminate|exact Nz].
+      - destruct Hx; subst x; [exact Hdig|exact Dz]. }
+    destruct (G_and cls st _ Hin S0 P0 V) as (st1 & G1).
+    assert (S1 : ls_spans st1 = []) by (rewrite (gstep_spans cls _ _ _ _ _ _ _ G1); exact S0).
+    assert (Zx : zend cls x) by (destruct Hx; subst x; [exact (zend_and cls Hcls)|exact Zz]).
+    destruct (G_keyz cls st1 w x u Hw Zx (gstep_in cls _ _ _ _ _ _ _ G1) (gstep_pos cls _ _ _ _ _ _ _ G1) S1) as (st2 & G2).
+    assert (S2 : ls_spans st2 = []) by (rewrite (gstep_spans cls _ _ _ _ _ _ _ G2); exact S1).
+    pose proof (gstep_in cls _ _ _ _ _ _ _ G2) as I2. rewrite <- Ex in I2.
+    destruct (IH st2 r Hws I2 S2 (gstep_pos cls _ _ _ _ _ _ _ G2)) as (st3 & L3 & I3 & B3 & P3 & C3).
+    exists st3. split; [|split; [exact I3|split; [|split; [exact P3|]]]].
+    + change (ands_sh (w :: ws)) with ([(CONSTRAINT, Some (TVText [8743]))] ++ [(IDENTIFIER, Some (TVText w))] ++ ands_sh ws).
+      eapply (lextoB_trans cls); [eapply (lextoB_gstep cls); [exact G1|reflexivity|right; reflexivity]|].
+      eapply (lextoB_trans cls); [eapply (lextoB_gstep cls); [exact G2|reflexivity|right; reflexivity]|exact L3].
+    + rewrite B3, (gstep_brk cls _ _ _ _ _ _ _ G2). exact (gstep_brk cls _ _ _ _ _ _ _ G1).
+    + pose proof (gstep_col cls _ _ _ _ _ _ _ G1). pose proof (gstep_col cls _ _ _ _ _ _ _ G2). lia.
+Qed.
+
+Lemma lex_chainT s ws T st r :
+  cls_and_ok cls = true -> cls_flow_ok cls = true -> chain_ok ws = true -> key_ok T = true ->
+  ls_in st = chainT_text s ws T ++ r -> ls_spans st = [] -> 1 <= ls_col st ->
+  exists st', lexto cls st (chainT_shape s ws T) st' /\ ls_in st' = r /\ 1 < ls_col st' /\ ls_pos st' <> 0.
+Proof.
+  intros Hcls Hfl Hok HT Hin S0 C0. destruct (cls_flow_parts Hfl) as [Zf Df].
+  unfold chain_ok in Hok. apply andb_true_iff in Hok as [Hne Hws].
+  unfold chainT_text in Hin. repeat (progress (rewrite <- ?app_assoc in Hin; cbn [app] in Hin)).
+  destruct (G_lbr cls st _ Hin S0) as (st1 & p & G1).
+  assert (S1 : ls_spans st1 = []) by (rewrite (gstep_spans cls _ _ _ _ _ _ _ G1); exact S0).
+  destruct ws as [|w ws]; [discriminate Hne|].
+  pose proof (gstep_in cls _ _ _ _ _ _ _ G1) as I1. cbn [ands_text app] in I1.
+  destruct (G_str cls st1 s 8743 _ I1 ltac:(discriminate) S1) as (st2 & G2).
+  assert (S2 : ls_spans st2 = []) by (rewrite (gstep_spans cls _ _ _ _ _ _ _ G2); exact S1).
+  pose proof (gstep_in cls _ _ _ _ _ _ _ G2) as I2.
+  change (ls_in st2 = ands_text (w :: ws) ++ 8594 :: 167 :: T ++ c_rbr :: r) in I2.
+  destruct (lex_ands_z 8594 Hcls Zf Df ltac:(discriminate) (w :: ws) st2 _ Hws I2 S2 (gstep_pos cls _ _ _ _ _ _ _ G2)) as (st3 & L3 & I3 & B3 & P3 & C3).
+  assert (S3 : ls_spans st3 = []) by (rewrite (lextoB_spans cls _ _ _ L3); exact S2).
+  assert (Hnd : forall y, In y (8594 :: 167 :: T) -> y <> c_dot).
+  { intros y [<-|[<-|Hy]]; [discriminate|discriminate|exact (key_no_dot T HT y Hy)]. }
+  assert (V3 : scan_version cls (8594 :: 167 :: T ++ c_rbr :: r) = None).
+  { change (8594 :: 167 :: T ++ ?x) with ((8594 :: 167 :: T) ++ x). apply scan_version_no_dot; [exact Hnd|discriminate|apply u_digit_false; chr]. }
+  destruct (G_flow cls st3 _ I3 S3 P3 V3) as (st4 & G4).
+  assert (S4 : ls_spans st4 = []) by (rewrite (gstep_spans cls _ _ _ _ _ _ _ G4); exact S3).
+  assert (V4 : scan_version cls (167 :: T ++ c_rbr :: r) = None).
+  { change (167 :: T ++ ?x) with ((167 :: T) ++ x). apply scan_version_no_dot; [intros y Hy; apply Hnd; right; exact Hy|discriminate|apply u_digit_false; chr]. }
+  destruct (G_section cls st4 _ (gstep_in cls _ _ _ _ _ _ _ G4) S4 V4) as (st5 & G5).
+  assert (S5 : ls_spans st5 = []) by (rewrite (gstep_spans cls _ _ _ _ _ _ _ G5); exact S4).
+  destruct (G_key cls st5 T c_rbr _ HT ltac:(right; right; left; reflexivity) (gstep_in cls _ _ _ _ _ _ _ G5) (gstep_pos cls _ _ _ _ _ _ _ G5) S5) as (st6 & G6).
+  assert (S6 : ls_spans st6 = []) by (rewrite (gstep_spans cls _ _ _ _ _ _ _ G6); exact S5).
+  assert (B6 : ls_brk st6 = p :: ls_brk st).
+  { rewrite (gstep_brk cls _ _ _ _ _ _ _ G6), (gstep_brk cls _ _ _ _ _ _ _ G5), (gstep_brk cls _ _ _ _ _ _ _ G4), B3, (gstep_brk cls _ _ _ _ _ _ _ G2).
+    exact (gstep_brk cls _ _ _ _ _ _ _ G1). }
+  destruct (G_rbr cls st6 _ p (ls_brk st) (gstep_in cls _ _ _ _ _ _ _ G6) S6 B6) as (st7 & G7).
+  exists st7. split; [|split; [exact (gstep_in cls _ _ _ _ _ _ _ G7)|split; [|exact (gstep_pos cls _ _ _ _ _ _ _ G7)]]].
+  - apply (lextoB_lexto cls); [|exact (gstep_brk cls _ _ _ _ _ _ _ G7)]. unfold chainT_shape.
+    change ([(LIST_START, Some (TVText [91])); (STRING, Some (TVText s))] ++ ?l ++
+            [(FLOW, Some (TVText [8594])); (SECTION, Some (TVText [167])); (IDENTIFIER, Some (TVText T)); (LIST_END, Some (TVText [93]))])
+      with ([(LIST_START, Some (TVText [91]))] ++ [(STRING, Some (TVText s))] ++ l ++
+            [(FLOW, Some (TVText [8594]))] ++ [(SECTION, Some (TVText [167]))] ++ [(IDENTIFIER, Some (TVText T))] ++ [(LIST_END, Some (TVText [93]))]).
+    eapply (lextoB_trans cls); [eapply (lextoB_gstep cls); [exact G1|reflexivity|right; reflexivity]|].
+    eapply (lextoB_trans cls); [eapply (lextoB_gstep cls); [exact G2|reflexivity|right; reflexivity]|].
+    eapply (lextoB_trans cls); [exact L3|].
+    eapply (lextoB_trans cls); [eapply (lextoB_gstep cls); [exact G4|reflexivity|right; reflexivity]|].
+    eapply (lextoB_trans cls); [eapply (lextoB_gstep cls); [exact G5|reflexivity|right; reflexivity]|].
+    eapply (lextoB_trans cls); [eapply (lextoB_gstep cls); [exact G6|reflexivity|right; reflexivity]|].
+    eapply (lextoB_gstep cls); [exact G7|reflexivity|right; reflexivity].
+  - pose proof (gstep_col cls _ _ _ _ _ _ _ G1). pose proof (gstep_col cls _ _ _ _ _ _ _ G2). pose proof (gstep_col cls _ _ _ _ _ _ _ G4).
+    pose proof (gstep_col cls _ _ _ _ _ _ _ G5). pose proof (gstep_col cls _ _ _ _ _ _ _ G6). pose proof (gstep_col cls _ _ _ _ _ _ _ G7). lia.
+Qed.
+
+Lemma lex_chainT_line D k s ws T t st rest :
+  cls_and_ok cls = true -> cls_flow_ok cls = true -> key_ok k = true -> chain_ok ws = true -> key_ok T = true -> opt_ne t = true -> trail_ok t = true ->
+  ls_in st = (ind D ++ k ++ s_assign ++ chainT_text s ws T ++ emit_trailing t) ++ c_nl :: rest -> ready st ->
+  exists st', lexto cls st (indent_sh D ++ [(IDENTIFIER, Some (TVText k)); (ASSIGN, None)] ++ chainT_shape s ws T ++ trail_sh t ++ [(NEWLINE, None)]) st' /\
+              ls_in st' = rest /\ ready st'.
+Proof.
+  intros Hcls Hfl Hk Hw HT Hne Ht Hin Hr. rewrite <- !app_assoc in Hin.
+  change (s_assign ++ ?x) with (c_colon :: c_colon :: x) in Hin.
+  destruct (lex_indent_key cls D k _ st Hk Hin Hr) as (st2 & L2 & I2 & S2).
+  destruct (T_assign cls st2 _ I2 S2) as (st3 & T3).
+  assert (L3 : lexto cls st2 [(ASSIGN, None)] st3) by (eapply lexto_tstep; [exact T3|reflexivity|left; reflexivity]).
+  assert (S3 : ls_spans st3 = []) by (rewrite (tstep_spans _ _ _ _ _ _ _ T3); exact S2).
+  assert (C3 : 1 <= ls_col st3) by (apply (lexto_col cls _ _ _ L3), (lexto_col cls _ _ _ L2), ready_col; exact Hr).
+  pose proof (tstep_in _ _ _ _ _ _ _ T3) as I3.
+  destruct (lex_chainT s ws T st3 _ Hcls Hfl Hw HT I3 S3 C3) as (st4 & L4 & I4 & C4 & P4).
+  assert (S4 : ls_spans st4 = []) by (rewrite (lexto_spans _ _ _ _ L4); exact S3).
+  destruct (lex_trail cls t st4 rest Hne Ht I4 C4 S4 P4) as (st5 & L5 & I5).
+  assert (S5 : ls_spans st5 = []) by (rewrite (lexto_spans _ _ _ _ L5); exact S4).
+  destruct (lex_newline cls st5 rest I5 S5) as (st6 & L6 & I6 & R6).
+  exists st6. split; [|split; assumption].
+  change ([(IDENTIFIER, Some (TVText k)); (ASSIGN, None)] ++ ?l) with ([(IDENTIFIER, Some (TVText k))] ++ [(ASSIGN, @None tvalue)] ++ l).
+  rewrite app_assoc. eapply lexto_trans; [exact L2|]. eapply lexto_trans; [exact L3|].
+  eapply lexto_trans; [exact L4|]. eapply lexto_trans; [exact L5|exact L6].
+Qed.
+End ChainT.
+
+Lemma chainT_shape_txt s ws T : forallb txt_sh (chainT_shape s ws T) = true.
+Proof. unfold chainT_shape. rewrite !forallb_app, ands_sh_txt. reflexivity. Qed.
+Lemma plain_chainT s ws T : chain_ok ws = true -> key_ok T = true -> plain (chainT_text s ws T) = true.
+Proof.
+  unfold chain_ok. intros H HT. apply andb_true_iff in H as [_ H]. unfold chainT_text.
+  rewrite !plain_app, plain_quote, (plain_ands ws H), !plain_cons, plain_app, (plain_keyok _ HT). reflexivity.
+Qed.
+Theorem hsh_lex_chainT cls s ws T : cls_and_ok cls = true -> cls_flow_ok cls = true -> chain_ok ws = true -> key_ok T = true ->
+  hsh_lex cls (chainT_text s ws T) = chainT_shape s ws T.
+Proof.
+  intros Hcls Hfl Hw HT. unfold hsh_lex.
+  assert (Ht : tok_text (chainT_text s ws T) = true).
+  { apply line_tok. unfold LexLink.line_ok. rewrite (plain_chainT s ws T Hw HT). reflexivity. }
+  rewrite (tokenize_tok_text cls false _ Ht eq_refl).
+  set (st0 := mkLS (chainT_text s ws T) None 0 1 1 [] [] [] []).
+  destruct (lex_chainT cls s ws T st0 [] Hcls Hfl Hw HT) as (st' & (Hst & (ts & Htk & HF) & Hr & Hb & _) & Hin & _);
+    [rewrite app_nil_r; reflexivity|reflexivity|cbn [ls_col st0]; lia|].
+  rewrite (run_steps_finish cls st0 st' _ Hst Hin) by (cbn [ls_in st0]; lia).
+  unfold finish. rewrite Hb, Hr, Htk. cbn [ls_brk ls_reps ls_toks st0 rev app]. rewrite app_nil_r, rev_involutive, removelast_last.
+  exact (sh_of_match _ _ (chainT_shape_txt s ws T) HF).
+Qed.
+Print Assumptions lex_chainT_line.
+Print Assumptions hsh_lex_chainT.
